@@ -52,6 +52,8 @@ HW(tw, k) == LET S == {i \in 1..Len(tw) : tw[i][2] = k} IN IF S = {} THEN RZero 
 \* measurement shocks (common value).  A period with a larger shock variance adds, to the covariance of two state-type variables, the
 \* product of their loadings on that period's shock times the extra variance.
 SdAt(sd, t, k) == RAdd(sd.base[k], sd.extra[t][k])
+\* sdw likewise: [base |-> common variance of the measurement shocks, extra |-> [t -> extra variance in period t]]
+SdwAt(sdw, t) == RAdd(sdw.base, sdw.extra[t])
 RECURSIVE ExtraSS(_, _, _, _, _, _, _)
 ExtraSS(id, TP, sd, v1, v2, r, k) ==
     IF r > TK THEN RZero
@@ -62,12 +64,12 @@ ExtraSS(id, TP, sd, v1, v2, r, k) ==
 Cov(id, Cs, TP, sd, sdw, v1, v2) ==
     LET st1 == v1[1] \in {"X", "Y"} st2 == v2[1] \in {"X", "Y"} IN
     IF st1 /\ st2 THEN RAdd(RAdd(QuadSum(Cs, Form(id, v1), Form(id, v2), v1[2] - v2[2], 1, 1), ExtraSS(id, TP, sd, v1, v2, 1, 1)),
-                            IF v1[2] = v2[2] THEN ShockCovV(Tw(id, v1), Tw(id, v2), sdw, 1) ELSE RZero)
+                            IF v1[2] = v2[2] THEN ShockCovV(Tw(id, v1), Tw(id, v2), SdwAt(sdw, v1[2]), 1) ELSE RZero)
     ELSE IF st1 /\ v2[1] = "E" THEN RMul(FormShock(id, TP, Form(id, v1), v1[2], v2[2], v2[3], 1), SdAt(sd, v2[2], v2[3]))
     ELSE IF st2 /\ v1[1] = "E" THEN RMul(FormShock(id, TP, Form(id, v2), v2[2], v1[2], v1[3], 1), SdAt(sd, v1[2], v1[3]))
-    ELSE IF st1 /\ v2[1] = "W" THEN (IF v1[2] = v2[2] THEN RMul(HW(Tw(id, v1), v2[3]), sdw) ELSE RZero)
-    ELSE IF st2 /\ v1[1] = "W" THEN (IF v1[2] = v2[2] THEN RMul(HW(Tw(id, v2), v1[3]), sdw) ELSE RZero)
-    ELSE IF v1 = v2 THEN (IF v1[1] = "E" THEN SdAt(sd, v1[2], v1[3]) ELSE sdw)
+    ELSE IF st1 /\ v2[1] = "W" THEN (IF v1[2] = v2[2] THEN RMul(HW(Tw(id, v1), v2[3]), SdwAt(sdw, v2[2])) ELSE RZero)
+    ELSE IF st2 /\ v1[1] = "W" THEN (IF v1[2] = v2[2] THEN RMul(HW(Tw(id, v2), v1[3]), SdwAt(sdw, v1[2])) ELSE RZero)
+    ELSE IF v1 = v2 THEN (IF v1[1] = "E" THEN SdAt(sd, v1[2], v1[3]) ELSE SdwAt(sdw, v1[2]))
     ELSE RZero
 
 \* observations: sequence of <<t, i>> with data, ordered by period
@@ -130,34 +132,45 @@ DeepData(id) == IF NY(id) = 1
 NoExtra(id) == [t \in 1..TK |-> [k \in 1..NE(id) |-> RZero]]
 Extras(id) == {NoExtra(id), [NoExtra(id) EXCEPT ![2][1] = R(1)]}
               \cup (IF Deep THEN {[NoExtra(id) EXCEPT ![1][1] = R(1), ![3][NE(id)] = R(1)]} ELSE {})
-Init == sc \in UNION {{[id |-> id, data |-> d, sd |-> sd, sdw |-> sw, dsd |-> x] : d \in (IF Deep THEN DeepData(id) ELSE DataSets(id)),
+NoExtraW == [t \in 1..TK |-> RZero]
+ExtrasW == {NoExtraW, [NoExtraW EXCEPT ![2] = R(3)]} \cup (IF Deep THEN {[NoExtraW EXCEPT ![1] = R(3), ![3] = R(8)]} ELSE {})
+Init == sc \in UNION {{[id |-> id, data |-> d, sd |-> sd, sdw |-> sw, dsd |-> x, dsw |-> xw] : d \in (IF Deep THEN DeepData(id) ELSE DataSets(id)),
                           sd \in {[i \in 1..NE(id) |-> R(3)], [i \in 1..NE(id) |-> R(12)]}, sw \in {R(1), R(4)},
-                          x \in Extras(id)} : id \in Ids}
-        /\ (sc.dsd # NoExtra(sc.id) => (sc.sd[1] = R(3) /\ sc.sdw = R(1)))
+                          x \in Extras(id), xw \in ExtrasW} : id \in Ids}
+        /\ (sc.dsd # NoExtra(sc.id) => (sc.sd[1] = R(3) /\ sc.sdw = R(1) /\ sc.dsw = NoExtraW))
+        /\ (sc.dsw # NoExtraW => (sc.sd[1] = R(3) /\ sc.sdw = R(1)))
         /\ out = <<>> /\ done = FALSE
 SDR(s) == [base |-> s.sd, extra |-> s.dsd]
+SDWR(s) == [base |-> s.sdw, extra |-> s.dsw]
 Compute == /\ ~done /\ done' = TRUE /\ UNCHANGED sc
            /\ \E ly \in {LyapV(sc.id, sc.sd)} : \E Cs \in {CTable(ly)} : \E TP \in {[k \in 0..TK |-> RMatPow(GModel(sc.id).T, k)]} :
                 out' = [ok |-> ly.ok /\ LyapOk(ly), src |-> Source(GModel(sc.id)), srcb |-> SourceB(GModel(sc.id)),
                         vars |-> GModel(sc.id).vars, mvars |-> GModel(sc.id).mvars, shocks |-> GModel(sc.id).shocks, mshocks |-> GModel(sc.id).mshocks,
-                        predict |-> [t \in 1..TK |-> Moments(sc.id, Cs, TP, SDR(sc), sc.sdw, sc.data, t - 1, t)],
-                        update  |-> [t \in 1..TK |-> Moments(sc.id, Cs, TP, SDR(sc), sc.sdw, sc.data, t, t)],
-                        smooth  |-> [t \in 1..TK |-> Moments(sc.id, Cs, TP, SDR(sc), sc.sdw, sc.data, TK, t)],
-                        pe |-> [t \in 1..TK |-> PredErr(sc.id, Cs, TP, SDR(sc), sc.sdw, sc.data, t)],
+                        predict |-> [t \in 1..TK |-> Moments(sc.id, Cs, TP, SDR(sc), SDWR(sc), sc.data, t - 1, t)],
+                        update  |-> [t \in 1..TK |-> Moments(sc.id, Cs, TP, SDR(sc), SDWR(sc), sc.data, t, t)],
+                        smooth  |-> [t \in 1..TK |-> Moments(sc.id, Cs, TP, SDR(sc), SDWR(sc), sc.data, TK, t)],
+                        pe |-> [t \in 1..TK |-> PredErr(sc.id, Cs, TP, SDR(sc), SDWR(sc), sc.data, t)],
                         meq |-> GModel(sc.id).meqs, teq |-> GModel(sc.id).eqs]
 \* clause-only scenarios (no exact moments are computed): a unit-root model (diffuse initial condition, data ending before the
 \* filter span ends) and a forward-looking model with anticipated shocks supplied as data; the harness evaluates the C08 clauses
 \* (data reproduced, equations hold, re-simulation) on the filter's own output with the structural form emitted here
-ClauseScen == {[id |-> "L5", data |-> << <<2>>, <<3>>, <<NaN>>, <<NaN>> >>, ant |-> <<>>],
-               [id |-> "L5B", data |-> << <<2>>, <<3>>, <<5>>, <<NaN>>, <<NaN>> >>, ant |-> <<>>],
-               [id |-> "L5B", data |-> << <<NaN>>, <<4>>, <<NaN>>, <<1>>, <<2>> >>, ant |-> <<>>],
-               [id |-> "L5", data |-> << <<1>>, <<NaN>>, <<4>>, <<2>> >>, ant |-> <<>>],
-               [id |-> "L2", data |-> << <<3>>, <<1>>, <<NaN>>, <<2>> >>, ant |-> << <<2, 1, 1>>, <<4, 1, CNeg1>> >>],
-               [id |-> "L9", data |-> << <<CNeg2>>, <<NaN>>, <<1>>, <<0>> >>, ant |-> << <<3, 1, 2>> >>]}
+ClauseScen == {[id |-> "L5", data |-> << <<2>>, <<3>>, <<NaN>>, <<NaN>> >>, ant |-> <<>>, wmean |-> <<>>],
+               [id |-> "L5B", data |-> << <<2>>, <<3>>, <<5>>, <<NaN>>, <<NaN>> >>, ant |-> <<>>, wmean |-> <<>>],
+               [id |-> "L5B", data |-> << <<NaN>>, <<4>>, <<NaN>>, <<1>>, <<2>> >>, ant |-> <<>>, wmean |-> <<>>],
+               [id |-> "L5", data |-> << <<1>>, <<NaN>>, <<4>>, <<2>> >>, ant |-> <<>>, wmean |-> <<>>],
+               [id |-> "L2", data |-> << <<3>>, <<1>>, <<NaN>>, <<2>> >>, ant |-> << <<2, 1, 1>>, <<4, 1, CNeg1>> >>, wmean |-> <<>>],
+               [id |-> "L9", data |-> << <<CNeg2>>, <<NaN>>, <<1>>, <<0>> >>, ant |-> << <<3, 1, 2>> >>, wmean |-> <<>>],
+               \* measurement-shock MEANS supplied as data (shocks_from_data): in an observed and in an unobserved period
+               [id |-> "L9", data |-> << <<CNeg2>>, <<NaN>>, <<1>>, <<0>> >>, ant |-> <<>>, wmean |-> << <<2, 1, CNeg1>>, <<3, 1, 1>> >>],
+               [id |-> "L1", data |-> << <<3>>, <<1>>, <<NaN>>, <<2>> >>, ant |-> <<>>, wmean |-> << <<2, 1, 2>> >>],
+               \* log-variables in the transition block, a plain measurement variable (the log status of the i-th measurement variable
+               \* differs from that of the i-th quantity of the model)
+               [id |-> "L6", data |-> << <<1>>, <<NaN>>, <<2>>, <<1>> >>, ant |-> <<>>, wmean |-> <<>>]}
 InitC == sc \in ClauseScen /\ out = <<>> /\ done = FALSE
 ComputeC == /\ ~done /\ done' = TRUE /\ UNCHANGED sc
             /\ out' = [ok |-> TRUE, src |-> Source(GModel(sc.id)), vars |-> GModel(sc.id).vars, mvars |-> GModel(sc.id).mvars,
-                       shocks |-> GModel(sc.id).shocks, mshocks |-> GModel(sc.id).mshocks, meq |-> GModel(sc.id).meqs, teq |-> GModel(sc.id).eqs]
+                       shocks |-> GModel(sc.id).shocks, mshocks |-> GModel(sc.id).mshocks, meq |-> GModel(sc.id).meqs, teq |-> GModel(sc.id).eqs,
+                       logv |-> GModel(sc.id).logv, linear |-> GModel(sc.id).linear]
 SpecC == InitC /\ [][ComputeC]_vars
 Next == Compute
 Spec == Init /\ [][Next]_vars
